@@ -11,7 +11,7 @@
    IOEnv.VERIF_L2 = "1" additionally demands the implementation-shaped unit list (drift check). *)
 EXTENDS Naturals, Integers, Sequences, FiniteSets, TLC, Json, IOUtils
 Annots == {} OvChoices == {} DfChoices == {} SpChoices == {} BoundVals == {}
-MaxFuncs == 0 MaxParams == 0 MaxTotal == 0 MaxBound == 0 MaxVariants == 0 MinEmit == 0 SimMode == FALSE
+MaxFuncs == 0 MaxParams == 0 MaxTotal == 0 MaxBound == 0 MaxVariants == 0 MinEmit == 0 SimMode == FALSE VarLens == {} VarW == {}
 VARIABLES d, phase
 INSTANCE Controls
 Traces == JsonDeserialize(IOEnv.VERIF_TRACES)
@@ -54,10 +54,11 @@ BoundOK(o, dd) ==
             /\ Cardinality(outs) = 1
             /\ \A x \in outs : o.units[x].ins[2][1] = 0 - 1 /\ o.units[x].ins[2][3] = ps[i].bv
 VariantsOK(o, dd, L) ==
-    /\ Len(o.variants) = Len(dd.variants)
-    /\ \A v \in 1..Len(dd.variants) :
-          \E w \in 1..Len(o.variants) : /\ o.variants[w].n = dd.name \o "." \o dd.variants[v].n
-                                        /\ o.variants[w].v = VariantCtl(L, dd.variants[v])
+    LET wr == WrittenVariants(dd) IN
+    /\ Len(o.variants) = Len(wr)
+    /\ \A v \in 1..Len(wr) :
+          \E w \in 1..Len(o.variants) : /\ o.variants[w].n = FullName(dd, wr[v])
+                                        /\ o.variants[w].v = VariantCtl(L, wr[v])
 CtlUnits(units) == SelectSeq(units, LAMBDA u : u.c \in ControlClasses)
 UnitsExact(o, dd) ==
     LET got == CtlUnits(o.units)  exp == ExpectedUnits(dd) IN
